@@ -48,6 +48,7 @@ pub fn sr<S: Src, const NB: usize, const B: usize>(s: &mut S, maxpad: u8) {
     assert!(p.rtp_timestamp() == q.rtp_timestamp() && p.packet_count() == q.packet_count());
     assert!(p.octet_count() == q.octet_count() && p.n_reports() == q.n_reports());
     assert!(p.report_blocks().count() == q.report_blocks().count());
+    let mut compared = false;
     let blocks = (p.report_blocks().nth(k), q.report_blocks().nth(k));
     match blocks {
         (Some(x), Some(y)) => {
@@ -56,11 +57,12 @@ pub fn sr<S: Src, const NB: usize, const B: usize>(s: &mut S, maxpad: u8) {
             assert!(x.extended_sequence_number() == y.extended_sequence_number());
             assert!(x.last_sender_report_timestamp() == y.last_sender_report_timestamp());
             assert!(x.delay_since_last_sender_report_timestamp() == y.delay_since_last_sender_report_timestamp());
-            vcover!(true, "a block compared");
+            compared = true;
         }
         (None, None) => {}
         _ => panic!("padding changes the report blocks"),
     };
+    vcover!(NB == 0 || compared, "a block compared");
 }
 
 pub fn rr<S: Src, const NB: usize, const B: usize>(s: &mut S, maxpad: u8) {
@@ -77,16 +79,18 @@ pub fn rr<S: Src, const NB: usize, const B: usize>(s: &mut S, maxpad: u8) {
     let q = ReceiverReport::parse(&b[..nb]).expect("padded RR rejected");
     assert!(p.padding().is_none() && q.padding() == Some(pad));
     assert!(p.ssrc() == q.ssrc() && p.n_reports() == q.n_reports());
+    let mut compared = false;
     let blocks = (p.report_blocks().nth(k), q.report_blocks().nth(k));
     match blocks {
         (Some(x), Some(y)) => {
             assert!(x.ssrc() == y.ssrc() && x.cumulative_lost() == y.cumulative_lost());
             assert!(x.delay_since_last_sender_report_timestamp() == y.delay_since_last_sender_report_timestamp());
-            vcover!(true, "a block compared");
+            compared = true;
         }
         (None, None) => {}
         _ => panic!("padding changes the report blocks"),
     };
+    vcover!(NB == 0 || compared, "a block compared");
 }
 
 pub fn bye<S: Src, const NS: usize, const L: usize, const B: usize>(s: &mut S, maxpad: u8) {
@@ -286,6 +290,8 @@ pub fn fb<S: Src, const KIND: u8, const B: usize>(s: &mut S, maxpad: u8) {
 
 pub fn w_q_sr<S: Src>(s: &mut S) { sr::<S, 1, 64>(s, 12) }
 pub fn w_q_rr<S: Src>(s: &mut S) { rr::<S, 2, 68>(s, 12) }
+pub fn w_q_rr_0_pad28<S: Src>(s: &mut S) { rr::<S, 0, 40>(s, 28) }
+pub fn w_q_sr_0_pad28<S: Src>(s: &mut S) { sr::<S, 0, 60>(s, 28) }
 pub fn w_q_bye<S: Src>(s: &mut S) { bye::<S, 2, 12, 40>(s, 12) }
 pub fn w_q_bye_0<S: Src>(s: &mut S) { bye::<S, 0, 12, 32>(s, 12) }
 pub fn w_q_app<S: Src>(s: &mut S) { app::<S, 12, 36>(s, 12) }
@@ -311,6 +317,8 @@ pub fn w_t_fir_anypad<S: Src>(s: &mut S) { fb::<S, 4, 276>(s, 252) }
 common::register! {
     q_sr = w_q_sr => 2,
     q_rr = w_q_rr => 2,
+    q_rr_0_pad28 = w_q_rr_0_pad28 => 2,
+    q_sr_0_pad28 = w_q_sr_0_pad28 => 2,
     q_bye = w_q_bye => 2,
     q_bye_0 = w_q_bye_0 => 2,
     q_app = w_q_app => 2,
